@@ -159,3 +159,43 @@ Proof.
   split; [vm_compute; reflexivity|].
   eexists. split; [vm_compute; reflexivity|reflexivity].
 Qed.
+
+(* ------------------------------------------------------------------ without good_pool (H4 of the second audit)
+   Two DISTINCT runnables with the same String(): x (pool member 0, running) and x' (member 1, never
+   started, blocking Stop).  Reload([x']) has the same names as [x], so it is taken in place:
+   ReloadWithConfig goes to x', the configuration becomes [x'], x keeps running outside it.  Stop() then
+   makes Run() call Stop() on x', which blocks until a Run of x' has started and finished - never.
+   This is the code's behaviour (finding same-name-different-object:inplace-reload); [good_pool] - the
+   README's "each runnable's String() returns a unique identifier" - excludes it from the theorems. *)
+Definition h4_pool : params :=
+  mkParams [mkSpec 0 NonBlocking OnSignal RWC; mkSpec 0 UntilRunDone OnSignal RWC] true true true true true.
+Definition h4_sched : list label :=
+  [LRunCall; LRunBegin; LBootLock ORun; LCb ORun (CbSome [(0, 0)]%N); LBootLaunch ORun; LToRunning; LKRun 0 0%N;
+   LReloadCall 0; LRlLock 0; LCb (ORel 0) (CbSome [(1, 1)]%N); LRlSetInPlace 0; LRlCfg 0 1%N 1%N; LRlFinish 0; LRlRet 0;
+   LStopApi 0; LSSignal 0; LSelStop; LTransIf; LTearLock; LStopBegin ORun; LWCall 0 1%N;
+   LKExit 0 0%N (Some Canceled)].
+
+Definition none_enabled (P : params) (s : state) (ls : list label) : bool :=
+  forallb (fun l => match step P s l with None => true | Some _ => false end) ls.
+
+Lemma exact_refuted_without_good_pool :
+  ~ good_pool h4_pool /\ Forall (good_label h4_pool) h4_sched /\
+  membership_changed h4_pool [(0, 0)]%N [(1, 1)]%N = false /\
+  (exists s, run (step h4_pool) init (firstn 14 h4_sched) = Some s /\
+             fsm s = FRunning /\ reload_mu s = None /\
+             ids (entries_of s) = [1%N] /\ map k_child (cur_kids s) = [0%N] /\
+             ~ (forall c, In c (ids (entries_of s)) <-> In c (map k_child (cur_kids s))) /\
+             option_map r_calls (nth_error (reloaders s) 0) = Some [(1%N, Some 1%N)]) /\
+  (exists s, run (step h4_pool) init h4_sched = Some s /\
+             runt s = TStopWait /\ nth_error (stoppers s) 0 = Some SWaiting /\
+             option_map w_pc (nth_error (workers s) 0) = Some WCalled /\ ever 1%N s = false /\
+             forallb kdone (kids s) = true /\
+             none_enabled h4_pool s (taus s ++ [LWRet 0 1%N; LSRet 0; LRunRet None]) = true).
+Proof.
+  split.
+  { unfold good_pool, h4_pool. cbn. intros H. inversion H as [|? ? Hn _]. apply Hn. now left. }
+  split; [repeat constructor|]. split; [reflexivity|]. split.
+  - eexists. split; [vm_compute; reflexivity|]. do 4 (split; [reflexivity|]). split; [|reflexivity].
+    cbn. intros H. destruct (proj1 (H 1%N) (or_introl eq_refl)) as [E|[]]. discriminate E.
+  - eexists. split; [vm_compute; reflexivity|]. repeat split; vm_compute; reflexivity.
+Qed.
